@@ -202,6 +202,7 @@ def outpoint_serialize(self: Obj(OneOf(COutPoint, CMutableOutPoint))) -> Bytes:
 def txin_serialize(self: Obj(OneOf(CTxIn, CMutableTxIn))) -> Bytes:
     requires(valid_txin(self))
     unfold(enc_txin(self))
+    option(callable=True)
     ensures(result == enc_txin(self))
 
 
@@ -209,6 +210,7 @@ def txin_serialize(self: Obj(OneOf(CTxIn, CMutableTxIn))) -> Bytes:
 def txout_serialize(self: Obj(OneOf(CTxOut, CMutableTxOut))) -> Bytes:
     requires(valid_txout(self))
     unfold(enc_txout(self))
+    option(callable=True)
     ensures(result == enc_txout(self))
 
 
